@@ -64,6 +64,8 @@ def structure(text):
             continue            # text content is not structure
         elif e[0] == 'comment':
             out.append(('comment',))
+        elif e[0] == 'pi':
+            out.append(('pi', e[1].split(None, 1)[0] if e[1].split() else ''))     # the instruction's data is content, its target structure
         else:
             out.append((e[0],) + tuple(e[1:2]))
     return out
